@@ -26,12 +26,16 @@ Clause(r) ==
 (* implementation-shaped layer: the addresses the transcription of _add_segment computes from the walker's pop/push lists
    must be the observed ones; a difference is specification drift (reported, not a violation) *)
 Drift(r) ==
-  LET g == Groups(r.src, r.loop) IN
-  r.exc = "" /\ Len(r.yields) = Len(g) /\
-  \E k \in 1..Len(g) : g[k].kind = "tree" /\ r.yields[k].kind = "tree" /\ Len(r.yields[k].segs) = Len(g[k].idx) /\
-      LET run == [j \in 1..Len(g[k].idx) |-> r.src[g[k].idx[j]]]
-          ad == ImplAddresses(run, r.loop)
-      IN \E j \in 1..Len(run) : r.yields[k].segs[j].addr # ad[j]
+  LET g == Groups(r.src, r.loop)
+      ig == ImplGroups([k \in 1..Len(r.src) |-> [path |-> r.src[k].path, first |-> r.src[k].first]], r.loop) IN
+  \* the reader loop as transcribed (ImplGroups) must yield what was observed: same kinds, same sizes, raise iff the code raised
+  \/ (r.exc = "") # (~ig.raised)
+  \/ (r.exc = "" /\ (Len(r.yields) # Len(ig.ys) \/ \E k \in 1..Len(ig.ys) : r.yields[k].kind # ig.ys[k].kind \/ Len(r.yields[k].segs) # Len(ig.ys[k].idx)))
+  \/ (r.exc = "" /\ Len(r.yields) = Len(g) /\
+      \E k \in 1..Len(g) : g[k].kind = "tree" /\ r.yields[k].kind = "tree" /\ Len(r.yields[k].segs) = Len(g[k].idx) /\
+         LET run == [j \in 1..Len(g[k].idx) |-> r.src[g[k].idx[j]]]
+             ad == ImplAddresses(run, r.loop)
+         IN \E j \in 1..Len(run) : r.yields[k].segs[j].addr # ad[j])
 Init == i = 1 /\ rej = {}
 Step == /\ i <= Len(Recs)
         /\ LET c == Clause(Recs[i])
